@@ -376,6 +376,37 @@ func (s *State) callContract(spec *FuncSpec, callee *ssa.Function, c *ssa.CallCo
 			res.Terms = append(res.Terms, p.Terms...)
 		}
 	}
+	// in-place slice parameters: the caller's variable holds a rearranged slice afterwards
+	type inpl struct {
+		origin *Loc
+		nv     Val
+	}
+	var inpls []inpl
+	if callee != nil {
+		for _, pn := range spec.Inplace {
+			for i, p := range callee.Params {
+				if p.Name() != pn || i >= len(args) {
+					continue
+				}
+				a := args[i]
+				if !isSlice(a.T) || a.Origin == nil {
+					s.unsupported("in-place operation %s on a slice that is not held in a variable at %s", name, where)
+				}
+				nv := Val{T: a.T, Terms: []string{a.Terms[0], a.Terms[1]}}
+				for li, l := range shapeOf(a.T)[2:] {
+					_ = li
+					nv.Terms = append(nv.Terms, s.fresh("inplace", l.Sort))
+				}
+				env.vars["final:"+pn] = nv
+				inpls = append(inpls, inpl{a.Origin, nv})
+			}
+		}
+	}
+	defer func() {
+		for _, ip := range inpls {
+			s.storeTo(ip.origin, ip.nv, where)
+		}
+	}()
 	// postconditions (and naming clauses: "defines" introduces a name for the callee's result, assumed only)
 	for _, cl := range append(append([]*Clause(nil), spec.Ensures...), spec.Defines...) {
 		cl := cl
